@@ -383,7 +383,19 @@ func reviseCopy(spec *core.Spec) {
 		}
 	}
 	cp.Compile(context.Background(), interpreters(), true)
+	// ... and the gentler way: a node with a new action is added to a copy and the copy compiled without force; a copy
+	// that Compile accepts is a compiled specification (no step reports "uncompiled action" / "not compiled")
+	cp2 := spec.Copy("revision-2")
+	cp2.Nodes["zz-added"] = &core.Node{ActionSource: &core.ActionSource{Interpreter: "ecmascript", Source: "return _.bindings;"},
+		Branches: &core.Branches{Branches: []*core.Branch{{Target: "zz-added-2"}}}}
+	cp2.Nodes["zz-added-2"] = &core.Node{}
+	if err := cp2.Compile(context.Background(), interpreters(), false); err == nil && c13LateErrors(cp2) {
+		atomic.StoreInt32(&reviseLate, 1)
+	}
 }
+
+// reviseLate: a revision that compiled reported an uncompiled action afterwards
+var reviseLate int32
 
 func specswapComponent(g *G, n int, opts map[string]string) *Out {
 	procs := procsList(opts)
@@ -481,6 +493,11 @@ func specswapComponent(g *G, n int, opts map[string]string) *Out {
 		wg.Wait()
 		atomic.StoreInt32(&stop, 1)
 		writers.Wait()
+		if atomic.SwapInt32(&reviseLate, 0) == 1 && len(c.Walks) > 0 {
+			// reported as a processing call that saw neither version
+			c.Walks[0].conc = append(c.Walks[0].conc, &walkRun{Outcome: "panic", Err: "a revision made from Spec.Copy compiled without error and then reported an uncompiled action"})
+			o.count("revision-not-compiled")
+		}
 		c.Swaps = atomic.LoadInt64(&swaps)
 		ws := make([]string, len(c.Walks))
 		distinguishable := false
